@@ -66,6 +66,11 @@ func govcHostileCorpus() []govcHostile {
 		{"decimal-without-digits", []string{hdr("m") + "leaf x { type decimal64; } }"}, true},
 		{"submodule-include-cycle", []string{"module m { namespace \"urn:m\"; prefix m; include s1; }", "submodule s1 { belongs-to m { prefix m; } include s2; }", "submodule s2 { belongs-to m { prefix m; } include s1; leaf z { type string; } }"}, false},
 		{"rpc-input-choice-bad-type", []string{hdr("m") + "rpc r { input { choice c { leaf a { type nosuch; } } } } }"}, true},
+		{"uses-kept-grouping-tree", []string{hdr("m") + "grouping g { leaf x { type string; } container k { leaf y { type int8; } } } container c { uses g; } }"}, false},
+		{"uses-kept-grouping-tree-two-modules", []string{hdr("m") + "grouping g { leaf x { type string; } action a { input { leaf i { type string; } } } } }", hdr("u") + "import m { prefix m; } list l { key x; uses m:g; } }"}, false},
+		{"findnode-uses-self", []string{hdr("m") + "grouping g { uses g; leaf x { type string; } } container c { uses g; leaf z { type leafref { path \"../x\"; } } } }"}, true},
+		{"findnode-uses-missing", []string{hdr("m") + "container c { uses nosuch; leaf z { type string; } } }"}, true},
+		{"included-submodule-of-absent-module", []string{"submodule s { belongs-to nosuch { prefix n; } identity a; identity b { base a; } leaf l { type identityref { base a; } } }", hdr("m") + "include s; }"}, true},
 		{"empty", []string{""}, false},
 		{"only-comment", []string{"// nothing\n/* at all */"}, false},
 		{"unterminated-string", []string{"module m { namespace \"urn:m; prefix m; }"}, true},
@@ -106,6 +111,8 @@ func TestGovcChildC01(t *testing.T) {
 	}
 	cs := govcHostileCorpus()[ix]
 	ms := NewModules()
+	// second half of the run: the same inputs with the grouping trees kept (StoreUses)
+	ms.ParseOptions.StoreUses = os.Getenv("GOVC_STOREUSES") != ""
 	nerr := 0
 	for i, src := range cs.sources {
 		if err := ms.Parse(src, fmt.Sprintf("%s-%d.yang", cs.name, i)); err != nil {
@@ -132,6 +139,26 @@ func TestGovcChildC01(t *testing.T) {
 		_, _ = e.InstantiatingModule()
 		_ = e.DefaultValues()
 		_ = e.IsDir()
+		_ = e.Modules()
+		_ = e.Find(e.Path())
+		_ = e.Find("../" + e.Name)
+		if p := e.Prefix; p != nil {
+			_ = e.Find("/" + p.Name + ":" + e.Name)
+		}
+		if e.Node != nil {
+			_, _ = FindNode(e.Node, e.Name)
+			_, _ = FindNode(e.Node, "../"+e.Name)
+			_ = RootNode(e.Node)
+		}
+		for _, u := range e.Uses {
+			// the tree of the grouping itself is handed out too; it is not rooted in a module
+			walk(u.Grouping, depth+1)
+		}
+		for _, a := range e.Augmented {
+			_ = a.Path()
+			_ = a.Namespace()
+			_, _ = a.InstantiatingModule()
+		}
 		for _, k := range e.Dir {
 			walk(k, depth+1)
 		}
@@ -162,14 +189,19 @@ func TestGovcBoundedC01Hostile(t *testing.T) {
 	}
 	results := make(chan res, len(corpus))
 	sem := make(chan struct{}, 8)
-	for i := range corpus {
+	for i := 0; i < 2*len(corpus); i++ {
 		go func(i int) {
+			storeUses := i >= len(corpus)
+			i = i % len(corpus)
 			sem <- struct{}{}
 			defer func() { <-sem }()
 			ctx, cancel := context.WithTimeout(context.Background(), 30*time.Second)
 			defer cancel()
 			cmd := exec.CommandContext(ctx, os.Args[0], "-test.run=^TestGovcChildC01$", "-test.v")
 			cmd.Env = append(os.Environ(), fmt.Sprintf("GOVC_CASE=%d", i))
+			if storeUses {
+				cmd.Env = append(cmd.Env, "GOVC_STOREUSES=1")
+			}
 			out, err := cmd.CombinedOutput()
 			cs := corpus[i]
 			switch {
@@ -191,12 +223,12 @@ func TestGovcBoundedC01Hostile(t *testing.T) {
 			}
 		}(i)
 	}
-	for range corpus {
+	for i := 0; i < 2*len(corpus); i++ {
 		r := <-results
 		evals++
 		if r.msg != "" {
 			fmt.Printf("GOVC-FAIL name=c01-hostile-%s %s\n", corpus[r.i].name, r.msg)
 		}
 	}
-	fmt.Printf("GOVC-BOUNDED name=c01-hostile-inputs-in-child-processes bound=%d_inputs_(cyclic,_contradictory,_incomplete,_garbage),_30s_each evaluations=%d distinct=%d\n", len(corpus), evals, len(corpus))
+	fmt.Printf("GOVC-BOUNDED name=c01-hostile-inputs-in-child-processes bound=%d_inputs_(cyclic,_contradictory,_incomplete,_garbage),_each_with_and_without_StoreUses,_30s_each evaluations=%d distinct=%d\n", len(corpus), evals, len(corpus))
 }
